@@ -3,17 +3,22 @@
 //! Everything here is additive: with no explorer installed every shim delegates to the real
 //! primitive it stands in for, so the behaviour of the crate is unchanged.
 //!
-//! An *explorer* owns every scheduling decision the validators can observe:
+//! An *explorer* is installed per thread and owns every scheduling decision the validators can
+//! observe:
 //! - the order in which results of `JoinSet` tasks are delivered ([`JoinSet`]),
 //! - the order in which the bodies of spawned validator threads run ([`fake_std::thread`]).
+//!
+//! While an explorer is installed the "spawned" bodies run on the installing thread and the Tokio
+//! runtime is a current-thread one, so a whole run is one deterministic, replayable execution and
+//! independent explorations can proceed on separate threads.
 //!
 //! Each decision is a call to [`choose`] with a *label* that identifies the choice point. Every
 //! label has its own stream of pre-recorded answers (missing answers default to `0`), and every
 //! decision is appended to a trace so that the explorer can enumerate the alternatives.
 
 use crate::validators::ValidationContext;
+use std::cell::{Cell, RefCell};
 use std::collections::{HashMap, VecDeque};
-use std::sync::{Mutex, MutexGuard};
 
 const CHOICES_ENV_VAR: &str = "BLOCKWATCH_VERIF_CHOICES";
 const TRACE_ENV_VAR: &str = "BLOCKWATCH_VERIF_TRACE";
@@ -36,30 +41,32 @@ struct Explorer {
     diverged: Option<String>,
 }
 
-static EXPLORER: Mutex<Option<Explorer>> = Mutex::new(None);
-static ENV_CHECKED: Mutex<bool> = Mutex::new(false);
+thread_local! {
+    static EXPLORER: RefCell<Option<Explorer>> = const { RefCell::new(None) };
+    static ENV_CHECKED: Cell<bool> = const { Cell::new(false) };
+}
 
-fn lock() -> MutexGuard<'static, Option<Explorer>> {
-    EXPLORER.lock().unwrap_or_else(|e| e.into_inner())
+fn with_explorer<R>(f: impl FnOnce(&mut Option<Explorer>) -> R) -> R {
+    EXPLORER.with(|explorer| f(&mut explorer.borrow_mut()))
 }
 
 /// Installs an explorer with the given per-label answers. Replaces any previous explorer.
 pub fn install(streams: HashMap<String, Vec<usize>>) {
-    let mut guard = lock();
-    *guard = Some(Explorer {
-        streams: streams
-            .into_iter()
-            .map(|(label, answers)| (label, answers.into()))
-            .collect(),
-        ..Default::default()
+    with_explorer(|explorer| {
+        *explorer = Some(Explorer {
+            streams: streams
+                .into_iter()
+                .map(|(label, answers)| (label, answers.into()))
+                .collect(),
+            ..Default::default()
+        })
     });
 }
 
 /// Removes the explorer and returns the trace of all decisions taken since [`install`], plus a
 /// description of a replay divergence (if any).
 pub fn uninstall() -> (Vec<Choice>, Option<String>) {
-    let mut guard = lock();
-    match guard.take() {
+    match with_explorer(|explorer| explorer.take()) {
         Some(explorer) => (explorer.trace, explorer.diverged),
         None => (Vec::new(), None),
     }
@@ -69,11 +76,9 @@ pub fn uninstall() -> (Vec<Choice>, Option<String>) {
 /// `BLOCKWATCH_VERIF_CHOICES` holds one `label<TAB>a,b,c` line per label; every decision is
 /// appended to the file named by `BLOCKWATCH_VERIF_TRACE` as `label<TAB>options<TAB>chosen`.
 fn install_from_env_once() {
-    let mut checked = ENV_CHECKED.lock().unwrap_or_else(|e| e.into_inner());
-    if *checked {
+    if ENV_CHECKED.replace(true) {
         return;
     }
-    *checked = true;
     let Ok(choices_path) = std::env::var(CHOICES_ENV_VAR) else {
         return;
     };
@@ -89,20 +94,21 @@ fn install_from_env_once() {
             }
         }
     }
-    let mut guard = lock();
-    if guard.is_none() {
-        *guard = Some(Explorer {
-            streams,
-            trace_file: std::env::var(TRACE_ENV_VAR).ok().map(Into::into),
-            ..Default::default()
-        });
-    }
+    with_explorer(|explorer| {
+        if explorer.is_none() {
+            *explorer = Some(Explorer {
+                streams,
+                trace_file: std::env::var(TRACE_ENV_VAR).ok().map(Into::into),
+                ..Default::default()
+            });
+        }
+    });
 }
 
-/// Whether an explorer is installed.
+/// Whether an explorer is installed on this thread.
 pub fn is_active() -> bool {
     install_from_env_once();
-    lock().is_some()
+    with_explorer(|explorer| explorer.is_some())
 }
 
 /// Asks the explorer to pick one of `options` alternatives at the choice point `label`.
@@ -110,8 +116,10 @@ pub fn is_active() -> bool {
 /// Returns `None` when no explorer is installed.
 pub fn choose(label: &str, options: usize) -> Option<usize> {
     install_from_env_once();
-    let mut guard = lock();
-    let explorer = guard.as_mut()?;
+    with_explorer(|explorer| choose_with(explorer.as_mut()?, label, options))
+}
+
+fn choose_with(explorer: &mut Explorer, label: &str, options: usize) -> Option<usize> {
     let mut chosen = explorer
         .streams
         .get_mut(label)
@@ -149,15 +157,17 @@ fn site_label(kind: &str, file: &str) -> String {
         .and_then(|s| s.to_str())
         .unwrap_or("unknown")
         .to_string();
-    let mut guard = lock();
-    let ordinal = match guard.as_mut() {
+    let ordinal = with_explorer(|explorer| match explorer.as_mut() {
         Some(explorer) => {
-            let counter = explorer.ordinals.entry(format!("{kind}@{stem}")).or_insert(0);
+            let counter = explorer
+                .ordinals
+                .entry(format!("{kind}@{stem}"))
+                .or_insert(0);
             *counter += 1;
             *counter
         }
         None => 0,
-    };
+    });
     format!("{kind}@{stem}#{ordinal}")
 }
 
@@ -261,7 +271,30 @@ impl<T> Drop for JoinSet<T> {
 
 /// Stand-in for the `tokio` paths used by the validators runner.
 pub mod fake_tokio {
-    pub use ::tokio::runtime;
+    pub mod runtime {
+        /// A current-thread runtime while an explorer is installed, the default runtime otherwise.
+        pub struct Runtime(::tokio::runtime::Runtime);
+
+        impl Runtime {
+            pub fn new() -> std::io::Result<Self> {
+                if crate::verif_hooks::is_active() {
+                    ::tokio::runtime::Builder::new_current_thread()
+                        .enable_all()
+                        .build()
+                        .map(Self)
+                } else {
+                    ::tokio::runtime::Runtime::new().map(Self)
+                }
+            }
+        }
+
+        impl std::ops::Deref for Runtime {
+            type Target = ::tokio::runtime::Runtime;
+            fn deref(&self) -> &Self::Target {
+                &self.0
+            }
+        }
+    }
     pub mod task {
         pub use crate::verif_hooks::JoinSet;
     }
@@ -271,12 +304,15 @@ pub mod fake_tokio {
 pub mod fake_std {
     pub mod thread {
         use crate::verif_hooks::{choose, is_active};
+        use std::cell::RefCell;
         use std::sync::{Arc, Mutex};
 
         type Body = Box<dyn FnOnce() + Send>;
 
-        // Bodies of "spawned" threads that have not run yet.
-        static PENDING: Mutex<Vec<Body>> = Mutex::new(Vec::new());
+        thread_local! {
+            // Bodies of "spawned" threads that have not run yet.
+            static PENDING: RefCell<Vec<Body>> = const { RefCell::new(Vec::new()) };
+        }
 
         enum Inner<T> {
             Real(std::thread::JoinHandle<T>),
@@ -301,10 +337,7 @@ pub mod fake_std {
                 let result = std::panic::catch_unwind(std::panic::AssertUnwindSafe(body));
                 *result_slot.lock().unwrap_or_else(|e| e.into_inner()) = Some(result);
             });
-            PENDING
-                .lock()
-                .unwrap_or_else(|e| e.into_inner())
-                .push(deferred);
+            PENDING.with(|pending| pending.borrow_mut().push(deferred));
             JoinHandle(Inner::Deferred(slot))
         }
 
@@ -317,14 +350,12 @@ pub mod fake_std {
                         {
                             return result;
                         }
-                        let body = {
-                            let mut pending = PENDING.lock().unwrap_or_else(|e| e.into_inner());
-                            if pending.is_empty() {
-                                panic!("verif: joined a thread whose body is not pending");
-                            }
-                            let index = choose("thread-bodies", pending.len()).unwrap_or(0);
-                            pending.remove(index)
-                        };
+                        let count = PENDING.with(|pending| pending.borrow().len());
+                        if count == 0 {
+                            panic!("verif: joined a thread whose body is not pending");
+                        }
+                        let index = choose("thread-bodies", count).unwrap_or(0);
+                        let body = PENDING.with(|pending| pending.borrow_mut().remove(index));
                         body();
                     },
                 }
